@@ -11,11 +11,15 @@ func init() { generators["log"] = genLog }
 
 // genLog extracts from log/logging.go: the severity constants (typed `Severity = n` in one const block),
 // the capacity of logBuffer (make(chan *logLine, N) in Start) and of logsWaiting (make(chan struct{}, N)),
-// the merge decision `(*logLine).Equal` as a Lean function over the fields of `logLine` (see genLogEqual),
-// and from log/output.go / log/input.go nothing (their logic is modelled by hand and tied by traces).
+// the merge decision `(*logLine).Equal` as a Lean function over the fields of `logLine` (see genLogEqual);
+// from log/input.go and log/trace.go the level decisions taken outside log(): `fastcheck`, the decision tree of
+// `AddTracer`, and the table (function → severity it pre-checks / logs at / collects at) of every exported
+// logging function and tracer method (see genLogDecisions). The rest of input.go / output.go is modelled by
+// hand and tied by traces.
 func genLog() {
 	fset, f := parseFile("log/logging.go")
 	equalDef := genLogEqual(fset, f) + genLogNames(fset, f)
+	sevNames := map[string]bool{}
 	type sev struct {
 		name string
 		val  string
@@ -47,6 +51,10 @@ func genLog() {
 			die("log: severity constant %d is %s, expected %s", i, sevs[i].name, w)
 		}
 	}
+	for _, s := range sevs {
+		sevNames[s.name] = true
+	}
+	decisions := genLogDecisions(sevNames)
 	// channel capacities
 	caps := map[string]string{}
 	ast.Inspect(f, func(n ast.Node) bool {
@@ -110,6 +118,7 @@ func genLog() {
 	fmt.Fprintf(&sb, "\n/-- `logsWaiting = make(chan struct{}, N)`. -/\ndef logsWaitingCap : Nat := %s\n", caps["logsWaiting"])
 	fmt.Fprintf(&sb, "\n/-- `forceEmptyingOfBuffer = make(chan struct{})` (0 = rendezvous). -/\ndef forceEmptyingCap : Nat := %s\n", caps["forceEmptyingOfBuffer"])
 	sb.WriteString(equalDef)
+	sb.WriteString(decisions)
 	sb.WriteString("\nend PB.Gen.Log\n")
 	write("Log.lean", sb.String())
 }
@@ -352,5 +361,412 @@ func genLogNames(fset *token.FileSet, f *ast.File) string {
 		die("log: Severity.Name: no default clause")
 	}
 	fmt.Fprintf(&sb, "]\ndef severityNameDefault : String := %s\n", def)
+	return sb.String()
+}
+
+// ---------------------------------------------------------------------------------------------------
+// Level decisions taken outside log(): fastcheck, AddTracer, and which severity every API function asks about.
+
+// decEnv is what the identifiers of a function body stand for while its statements are translated.
+type decVal struct {
+	kind string // bool | num | file | segs | tracer | level
+	lean string
+}
+
+type decTr struct {
+	fset *token.FileSet
+	what string          // for error messages
+	sevs map[string]bool // the Severity constants
+	ctx  string          // name of the context parameter ("" if none)
+}
+
+func (t *decTr) die(format string, a ...any) {
+	die("log: %s: "+format, append([]any{t.what}, a...)...)
+}
+
+func leanSev(name string) string { return strings.ToLower(name[:1]) + name[1:] }
+
+// num translates a numeric operand of a level comparison: a Severity constant (also as uint32(C)), an
+// identifier bound to a number (also as uint32(x)), or the global level atomic.LoadUint32(logLevel).
+func (t *decTr) num(e ast.Expr, env map[string]decVal) string {
+	switch x := e.(type) {
+	case *ast.ParenExpr:
+		return t.num(x.X, env)
+	case *ast.Ident:
+		if t.sevs[x.Name] {
+			return leanSev(x.Name)
+		}
+		if v, ok := env[x.Name]; ok && (v.kind == "num" || v.kind == "level") {
+			return v.lean
+		}
+	case *ast.CallExpr:
+		s := exprString(t.fset, x)
+		if s == "atomic.LoadUint32(logLevel)" {
+			return "glob"
+		}
+		if id, ok := x.Fun.(*ast.Ident); ok && id.Name == "uint32" && len(x.Args) == 1 {
+			return t.num(x.Args[0], env)
+		}
+	}
+	t.die("unexpected operand %s of a level comparison", exprString(t.fset, e))
+	return ""
+}
+
+// cond translates a branch condition into a Lean Bool term.
+func (t *decTr) cond(e ast.Expr, env map[string]decVal) string {
+	switch x := e.(type) {
+	case *ast.ParenExpr:
+		return t.cond(x.X, env)
+	case *ast.Ident:
+		if v, ok := env[x.Name]; ok && v.kind == "bool" {
+			return v.lean
+		}
+	case *ast.UnaryExpr:
+		if x.Op == token.NOT {
+			return "(!" + t.cond(x.X, env) + ")"
+		}
+	case *ast.CallExpr:
+		s := exprString(t.fset, x)
+		if s == "pkgLevelsActive.IsSet()" {
+			return "active"
+		}
+		if id, ok := x.Fun.(*ast.Ident); ok && id.Name == "fastcheck" && len(x.Args) == 1 {
+			if a, ok := x.Args[0].(*ast.Ident); ok && t.sevs[a.Name] {
+				return "(fastcheck active glob " + leanSev(a.Name) + ")"
+			}
+		}
+	case *ast.BinaryExpr:
+		switch x.Op {
+		case token.LAND:
+			return "(" + t.cond(x.X, env) + " && " + t.cond(x.Y, env) + ")"
+		case token.LOR:
+			return "(" + t.cond(x.X, env) + " || " + t.cond(x.Y, env) + ")"
+		case token.LSS, token.LEQ, token.GTR, token.GEQ, token.EQL, token.NEQ:
+			// ctx != nil / ctx == nil
+			if id, ok := x.Y.(*ast.Ident); ok && id.Name == "nil" {
+				if c, ok := x.X.(*ast.Ident); ok && t.ctx != "" && c.Name == t.ctx && (x.Op == token.NEQ || x.Op == token.EQL) {
+					if x.Op == token.NEQ {
+						return "(!ctxNil)"
+					}
+					return "ctxNil"
+				}
+				break
+			}
+			// len(pathSegments) < 2
+			if c, ok := x.X.(*ast.CallExpr); ok {
+				if id, ok := c.Fun.(*ast.Ident); ok && id.Name == "len" && len(c.Args) == 1 {
+					a, ok := c.Args[0].(*ast.Ident)
+					if ok && env[a.Name].kind == "segs" && x.Op == token.LSS && exprString(t.fset, x.Y) == "2" {
+						return "short"
+					}
+					break
+				}
+			}
+			op := map[token.Token]string{token.LSS: "<", token.LEQ: "≤", token.GTR: ">", token.GEQ: "≥", token.EQL: "==", token.NEQ: "!="}[x.Op]
+			return "(decide (" + t.num(x.X, env) + " " + op + " " + t.num(x.Y, env) + "))"
+		}
+	}
+	t.die("unexpected condition %s", exprString(t.fset, e))
+	return ""
+}
+
+// block translates a statement list into a Lean Bool term (the function's decision); `after` is the term for
+// what follows the list when it falls through ("" = falling through is an error). Identifiers declared inside
+// a block are local to it (only `:=` is accepted, so nothing leaks out of a block).
+func (t *decTr) block(stmts []ast.Stmt, env map[string]decVal, after string, ret func(*ast.ReturnStmt, map[string]decVal) string, ind string) string {
+	env2 := map[string]decVal{}
+	for k, v := range env {
+		env2[k] = v
+	}
+	env = env2
+	for i, s := range stmts {
+		switch x := s.(type) {
+		case *ast.ReturnStmt:
+			if i != len(stmts)-1 {
+				t.die("statements after a return")
+			}
+			return ret(x, env)
+		case *ast.ExprStmt:
+			if c := exprString(t.fset, x.X); c != "pkgLevelsLock.Lock()" && c != "pkgLevelsLock.Unlock()" {
+				t.die("unexpected statement %s", c)
+			}
+		case *ast.AssignStmt:
+			t.assign(x, env)
+		case *ast.IfStmt:
+			if x.Init != nil {
+				t.die("if with an init statement")
+			}
+			rest := t.block(stmts[i+1:], env, after, ret, ind+"  ")
+			c := t.cond(x.Cond, env)
+			th := t.block(x.Body.List, env, rest, ret, ind+"  ")
+			el := rest
+			switch e := x.Else.(type) {
+			case nil:
+			case *ast.BlockStmt:
+				el = t.block(e.List, env, rest, ret, ind+"  ")
+			case *ast.IfStmt:
+				el = t.block([]ast.Stmt{e}, env, rest, ret, ind+"  ")
+			default:
+				t.die("unexpected else")
+			}
+			return "(if " + c + " then\n" + ind + "  " + th + "\n" + ind + "else\n" + ind + "  " + el + ")"
+		default:
+			t.die("unexpected statement %T", s)
+		}
+	}
+	if after == "" {
+		t.die("a path falls off the end of the function")
+	}
+	return after
+}
+
+// assign: the `:=` statements of AddTracer, each binding its identifiers to what they stand for.
+func (t *decTr) assign(a *ast.AssignStmt, env map[string]decVal) {
+	if a.Tok != token.DEFINE || len(a.Rhs) != 1 {
+		t.die("unexpected assignment %s", exprString(t.fset, a.Lhs[0]))
+	}
+	names := make([]string, len(a.Lhs))
+	for i, l := range a.Lhs {
+		id, ok := l.(*ast.Ident)
+		if !ok {
+			t.die("unexpected assignment target")
+		}
+		names[i] = id.Name
+	}
+	bind := func(i int, v decVal) {
+		if names[i] != "_" {
+			env[names[i]] = v
+		}
+	}
+	rhs := exprString(t.fset, a.Rhs[0])
+	switch {
+	case rhs == "runtime.Caller(1)" && len(names) == 4 && names[0] == "_" && names[2] == "_":
+		// the caller of AddTracer: its file decides the origin package
+		bind(1, decVal{"file", ""})
+		bind(3, decVal{"bool", "callerOk"})
+	case len(names) == 1 && strings.HasPrefix(rhs, "strings.Split("):
+		c := a.Rhs[0].(*ast.CallExpr)
+		id, ok := c.Args[0].(*ast.Ident)
+		if len(c.Args) != 2 || !ok || env[id.Name].kind != "file" || exprString(t.fset, c.Args[1]) != `"/"` {
+			t.die("unexpected %s", rhs)
+		}
+		bind(0, decVal{"segs", ""})
+	case len(names) == 2:
+		if ix, ok := a.Rhs[0].(*ast.IndexExpr); ok {
+			// severity, ok := pkgLevels[pathSegments[len(pathSegments)-2]]: the directory of the caller's file
+			m, ok1 := ix.X.(*ast.Ident)
+			in, ok2 := ix.Index.(*ast.IndexExpr)
+			if ok1 && ok2 && m.Name == "pkgLevels" {
+				sg, ok3 := in.X.(*ast.Ident)
+				if ok3 && env[sg.Name].kind == "segs" && exprString(t.fset, in.Index) == "len("+sg.Name+") - 2" {
+					bind(0, decVal{"num", "(found.getD 0)"})
+					bind(1, decVal{"bool", "found.isSome"})
+					return
+				}
+			}
+			t.die("unexpected map lookup %s", rhs)
+		}
+		if ta, ok := a.Rhs[0].(*ast.TypeAssertExpr); ok && t.ctx != "" {
+			if exprString(t.fset, ta.X) == t.ctx+".Value(key)" && exprString(t.fset, ta.Type) == "*ContextTracer" && names[0] == "_" {
+				bind(1, decVal{"bool", "existing"})
+				return
+			}
+		}
+		t.die("unexpected assignment from %s", rhs)
+	case len(names) == 1 && rhs == "&ContextTracer{}":
+		bind(0, decVal{"tracer", ""})
+	default:
+		t.die("unexpected assignment from %s", rhs)
+	}
+}
+
+// genLogDecisions regenerates
+//
+//	fastcheck(level)  (input.go)  → def fastcheck (active : Bool) (glob level : Nat) : Bool
+//	AddTracer(ctx)    (trace.go)  → def addTracer (ctxNil callerOk short active : Bool) (glob : Nat)
+//	                                  (found : Option Nat) (existing : Bool) : Bool   -- true: a live tracer is returned
+//	levelCalls                    → for every exported logging function / tracer method:
+//	                                  (receiver, name, argument of fastcheck, first argument of log, first argument of tracer.log)
+//
+// Statement shapes accepted: `if … {…} else {…}`, `return`, the lock calls, and the `:=` statements listed in
+// assign; conditions: see cond. Everything else is an error (fail closed).
+func genLogDecisions(sevs map[string]bool) string {
+	var sb strings.Builder
+	// ---- fastcheck
+	fsetI, fi := parseFile("log/input.go")
+	fc := findFunc(fi, "fastcheck", "")
+	if fc == nil || fc.Type.Params == nil || len(fc.Type.Params.List) != 1 || len(fc.Type.Params.List[0].Names) != 1 ||
+		exprString(fsetI, fc.Type.Params.List[0].Type) != "Severity" || fc.Type.Results == nil || len(fc.Type.Results.List) != 1 ||
+		exprString(fsetI, fc.Type.Results.List[0].Type) != "bool" {
+		die("log: fastcheck(level Severity) bool not found")
+	}
+	t := &decTr{fset: fsetI, what: "fastcheck", sevs: sevs}
+	retBool := func(r *ast.ReturnStmt, _ map[string]decVal) string {
+		if len(r.Results) == 1 {
+			if id, ok := r.Results[0].(*ast.Ident); ok && (id.Name == "true" || id.Name == "false") {
+				return id.Name
+			}
+		}
+		t.die("unexpected return")
+		return ""
+	}
+	body := t.block(fc.Body.List, map[string]decVal{fc.Type.Params.List[0].Names[0].Name: {"level", "level"}}, "", retBool, "  ")
+	sb.WriteString("\n/-- `fastcheck(level)` (log/input.go), regenerated: the cheap pre-check in front of `log()` and `AddTracer`;\n")
+	sb.WriteString("    `active` = `pkgLevelsActive.IsSet()`, `glob` = `atomic.LoadUint32(logLevel)`. -/\n")
+	sb.WriteString("def fastcheck (active : Bool) (glob level : Nat) : Bool :=\n  " + body + "\n")
+
+	// ---- AddTracer
+	fsetT, ft := parseFile("log/trace.go")
+	at := findFunc(ft, "AddTracer", "")
+	if at == nil || at.Type.Params == nil || len(at.Type.Params.List) != 1 || len(at.Type.Params.List[0].Names) != 1 ||
+		exprString(fsetT, at.Type.Params.List[0].Type) != "context.Context" || at.Type.Results == nil || len(at.Type.Results.List) != 2 {
+		die("log: AddTracer(ctx context.Context) (context.Context, *ContextTracer) not found")
+	}
+	ctx := at.Type.Params.List[0].Names[0].Name
+	t = &decTr{fset: fsetT, what: "AddTracer", sevs: sevs, ctx: ctx}
+	retTracer := func(r *ast.ReturnStmt, env map[string]decVal) string {
+		if len(r.Results) == 2 {
+			second, ok := r.Results[1].(*ast.Ident)
+			first := exprString(fsetT, r.Results[0])
+			if ok && second.Name == "nil" && first == ctx {
+				return "false"
+			}
+			if ok && env[second.Name].kind == "tracer" && first == "context.WithValue("+ctx+", key, "+second.Name+")" {
+				return "true"
+			}
+		}
+		t.die("unexpected return %s", exprString(fsetT, r.Results[0]))
+		return ""
+	}
+	body = t.block(at.Body.List, map[string]decVal{}, "", retTracer, "  ")
+	sb.WriteString("\n/-- `AddTracer(ctx)` (log/trace.go), regenerated branch by branch: does the caller get a live tracer?\n")
+	sb.WriteString("    `ctxNil`: ctx == nil; `callerOk`: runtime.Caller(1) succeeded; `short`: the caller's file path has fewer than\n")
+	sb.WriteString("    two segments; `found`: the entry of the caller's directory in `pkgLevels`; `existing`: the context already\n")
+	sb.WriteString("    carries a tracer. -/\n")
+	sb.WriteString("def addTracer (ctxNil callerOk short active : Bool) (glob : Nat) (found : Option Nat) (existing : Bool) : Bool :=\n  " + body + "\n")
+
+	// ---- which severity every logging function asks fastcheck about, logs at, collects at
+	type row struct{ recv, name, fc, lg, tl string }
+	var rows []row
+	sevArg := func(fset *token.FileSet, what string, c *ast.CallExpr) string {
+		if len(c.Args) == 0 {
+			die("log: %s: call without arguments", what)
+		}
+		id, ok := c.Args[0].(*ast.Ident)
+		if !ok || !sevs[id.Name] {
+			die("log: %s: %s is not called with a Severity constant", what, exprString(fset, c.Fun))
+		}
+		return id.Name
+	}
+	// log(X, <text>, nil) as the only statement of a block
+	logCall := func(fset *token.FileSet, what string, body []ast.Stmt) string {
+		if len(body) == 1 {
+			if es, ok := body[0].(*ast.ExprStmt); ok {
+				if c, ok := es.X.(*ast.CallExpr); ok {
+					if id, ok := c.Fun.(*ast.Ident); ok && id.Name == "log" && len(c.Args) == 3 && exprString(fset, c.Args[2]) == "nil" {
+						return sevArg(fset, what, c)
+					}
+				}
+			}
+		}
+		die("log: %s: expected `log(<Severity>, <text>, nil)`", what)
+		return ""
+	}
+	fastArg := func(fset *token.FileSet, what string, e ast.Expr) string {
+		c, ok := e.(*ast.CallExpr)
+		if ok {
+			if id, ok := c.Fun.(*ast.Ident); ok && id.Name == "fastcheck" && len(c.Args) == 1 {
+				return sevArg(fset, what, c)
+			}
+		}
+		die("log: %s: expected `fastcheck(<Severity>)`, found %s", what, exprString(fset, e))
+		return ""
+	}
+	mentions := func(fd *ast.FuncDecl) bool { // does the body call fastcheck / log / <x>.log?
+		hit := false
+		ast.Inspect(fd.Body, func(n ast.Node) bool {
+			if c, ok := n.(*ast.CallExpr); ok {
+				switch f := c.Fun.(type) {
+				case *ast.Ident:
+					hit = hit || f.Name == "fastcheck" || f.Name == "log"
+				case *ast.SelectorExpr:
+					hit = hit || f.Sel.Name == "log"
+				}
+			}
+			return true
+		})
+		return hit
+	}
+	for _, d := range fi.Decls {
+		fd, ok := d.(*ast.FuncDecl)
+		if !ok || fd.Body == nil || fd.Recv != nil || fd.Name.Name == "log" || fd.Name.Name == "fastcheck" || !mentions(fd) {
+			continue
+		}
+		what := fd.Name.Name
+		st := fd.Body.List
+		// an optional line counter in front: atomic.AddUint64(<counter>, 1)
+		if len(st) == 2 {
+			if es, ok := st[0].(*ast.ExprStmt); ok && strings.HasPrefix(exprString(fsetI, es.X), "atomic.AddUint64(") {
+				st = st[1:]
+			}
+		}
+		ifs, ok := st[0].(*ast.IfStmt)
+		if len(st) != 1 || !ok || ifs.Init != nil || ifs.Else != nil {
+			die("log: %s: expected `if fastcheck(<Severity>) { log(<Severity>, <text>, nil) }`", what)
+		}
+		rows = append(rows, row{"", what, fastArg(fsetI, what, ifs.Cond), logCall(fsetI, what, ifs.Body.List), ""})
+	}
+	for _, d := range ft.Decls {
+		fd, ok := d.(*ast.FuncDecl)
+		if !ok || fd.Body == nil || !mentions(fd) {
+			continue
+		}
+		if fd.Recv == nil {
+			if fd.Name.Name == "AddTracer" {
+				continue
+			}
+			die("log: trace.go: function %s takes a level decision the model does not know", fd.Name.Name)
+		}
+		if fd.Name.Name == "log" {
+			continue // (*ContextTracer).log: collects unconditionally (modelled by hand)
+		}
+		what := "(*ContextTracer)." + fd.Name.Name
+		if len(fd.Recv.List) != 1 || len(fd.Recv.List[0].Names) != 1 || exprString(fsetT, fd.Recv.List[0].Type) != "*ContextTracer" {
+			die("log: %s: unexpected receiver", what)
+		}
+		rc := fd.Recv.List[0].Names[0].Name
+		sw, ok := fd.Body.List[0].(*ast.SwitchStmt)
+		if len(fd.Body.List) != 1 || !ok || sw.Tag != nil || sw.Init != nil || len(sw.Body.List) != 2 {
+			die("log: %s: expected `switch { case %s != nil: …; case fastcheck(…): … }`", what, rc)
+		}
+		c0, c1 := sw.Body.List[0].(*ast.CaseClause), sw.Body.List[1].(*ast.CaseClause)
+		if len(c0.List) != 1 || exprString(fsetT, c0.List[0]) != rc+" != nil" || len(c1.List) != 1 || len(c0.Body) != 1 {
+			die("log: %s: unexpected cases", what)
+		}
+		tl := ""
+		if es, ok := c0.Body[0].(*ast.ExprStmt); ok {
+			if c, ok := es.X.(*ast.CallExpr); ok && exprString(fsetT, c.Fun) == rc+".log" && len(c.Args) == 2 {
+				tl = sevArg(fsetT, what, c)
+			}
+		}
+		if tl == "" {
+			die("log: %s: expected `%s.log(<Severity>, <text>)` in the first case", what, rc)
+		}
+		rows = append(rows, row{"ContextTracer", fd.Name.Name, fastArg(fsetT, what, c1.List[0]), logCall(fsetT, what, c1.Body), tl})
+	}
+	if len(rows) == 0 {
+		die("log: no logging functions found")
+	}
+	sb.WriteString("\n/-- Every exported logging function of log/input.go (receiver \"\") and every logging method of\n")
+	sb.WriteString("    `*ContextTracer` (log/trace.go): (receiver, name, the severity it asks `fastcheck` about, the severity it\n")
+	sb.WriteString("    passes to `log()`, the severity it passes to `tracer.log()` — \"\" for the package functions). -/\n")
+	sb.WriteString("def levelCalls : List (String × String × String × String × String) :=\n  [")
+	for i, r := range rows {
+		if i > 0 {
+			sb.WriteString(",\n   ")
+		}
+		fmt.Fprintf(&sb, "(%q, %q, %q, %q, %q)", r.recv, r.name, r.fc, r.lg, r.tl)
+	}
+	sb.WriteString("]\n")
 	return sb.String()
 }
